@@ -57,10 +57,10 @@ def run(ctx):
                     "one of the removal selections, then - if that was a partial removal - a removal without selection) is one case of %d steps on "
                     "average, each step replayed and projected; non-trivial = distinct sequences in which a page with more than one content stream "
                     "carries a watermark at some step" % (summ["steps"] // max(n, 1)),
-               exhaustive=True, steps_replayed=summ["steps"], mismatches=summ["mismatches"])
+               exhaustive=True, steps_replayed=summ["steps"], cases_on_nested_page_trees=summ.get("nested", 0), mismatches=summ["mismatches"])
         ev.assume("a page carries a watermark iff its decoded content contains the artifact marker '/Artifact <</Subtype /Watermark'",
                   "page content is compared up to whitespace and enclosing q .. Q pairs (proj.NormContent), one pair per stamp step",
-                  "marker documents are unrotated, resources are direct dictionaries on the pages",
+                  "marker documents are unrotated with a flat or a two-level page tree (rawpdf), resources are direct dictionaries on the pages",
                   "harness built with go1.26.8")
     finally:
         shutil.rmtree(d, ignore_errors=True)
